@@ -372,4 +372,4 @@ package sm2
 //@   (requires key (wfpriv pub))
 //@   (requires size (bvslt (len data) #x0000001000000000))
 //@   (requires field256 (<= (ec.p (tag (field pub PublicKey Curve))) 115792089237316195423570985008687907853269984665640564039457584007913129639936)))
-//@ (func CipherUnmarshal sweep)
+//@ (func CipherUnmarshal sweep (modifies))
